@@ -1,7 +1,7 @@
 /-
   Low-level model of src/stackvec.rs: the 62-slot `MaybeUninit` array is a total function
   `buf : Nat → Nat` whose INITIAL contents are arbitrary ("whatever was on the stack"); only the
-  slots `i < 62` are meaningful.  Every operation mirrors the unsafe code literally: raw writes to
+  slots `i < 62` are meaningful.  Every operation mirrors the raw-pointer code literally: raw writes to
   slot `len`, length updates, raw reads of slot `len - 1`.  Nothing here knows which slots are
   "initialised"; that no observable depends on a slot `≥ len` is a theorem (Props/C13), not a
   modelling decision.
